@@ -9,6 +9,9 @@ CHECKS = {
  "C11": (E2, "runtime monitoring: instrumented roots/expressions record every DSL/Prepare/Validate/Finalize callback of the real eval.RunDSL; phase-barrier automaton + reference topological order + error accounting over the recorded log",
          "Every digraph on <=4 labelled roots (cyclic ones included) x every registration order is run through the real eval engine (exhaustive for that sub-space), plus random 5-6 root cases with dynamic registration and error scripts; the callback log is judged by an independent automaton.",
          "Trusts the instrumented test roots; dependency targets never registered and ReportError from Prepare/Finalize are outside the envelope."),
+ "C13": (E2, "runtime monitoring: generated type graphs (cycles, unions, tags, validations) run through the real expr.Dup/DupAtt/Hash/Equal; copy-mutation classes checked with an independent reflection snapshot walker; reference structural-equality oracle from the documented Hash rules; repeated calls and child-process canaries for termination",
+         "All permutations of objects/unions with <=4 members x all flag combinations (exhaustive for that sub-space), random graphs to depth 5 with cycles, 24 copy-mutation classes, each hash repeated in-process; pairs with one known finite difference must hash differently.",
+         "Differences on which the Hash doc comment is silent (union type names, user vs result type kind) are counted, not judged; folded vs unfolded presentations are not compared."),
  "C15": (E2, "runtime monitoring: grid workload (Accept x designed type x pre-set header x value) against the real encoders/decoders; oracle = stdlib format detection + round trip + literal fallback rules",
          "Samples (quick) or enumerates (thorough, exhaustive over the enumerated literals) the response grid and the request grid; every cell is executed against the real goahttp encoder/decoder pair and judged by an oracle that shares no code with goa.",
          "Trusts stdlib json/xml/gob and the monitor's own Content-Type tokenizer; value kinds limited to the enumerated literals."),
